@@ -79,6 +79,13 @@ def templates(backend: str, s) -> List[str]:
         f"ds.SelectMany(lambda e: {J}).Select(lambda j: (-1.0 if j.tracks().Count() < 1 else j.tracks()[0].pt(), j.pt()))",
         f"ds.Select(lambda e: (0.0 if {J}.Count() == 0 else {J}[0].pt()) + (0.0 if {K}.Count() < 2 else {K}[1].eta()))",
         f"ds.Select(lambda e: (-1.0 if {J}.Count() == 0 else {J}.First().pt()) / 1000.0)",
+        # a filter / projection that never looks at its element but holds a partial operation on ANOTHER collection: it is
+        # evaluated once per element, so not at all when the source is empty
+        f"ds.Select(lambda e: {J}.Where(lambda j: {K}.First().pt() > 5.0).Count())",
+        f"ds.Select(lambda e: {J}.Where(lambda j: {K}.First().pt() > 5.0).Select(lambda j: j.pt()))",
+        f"ds.Select(lambda e: {J}.Select(lambda j: {K}[0].pt()))",
+        f"ds.Select(lambda e: {J}.Select(lambda j: j.trkPts().Where(lambda t: j.tracks().First().pt() > 5.0).Count()))",
+        f"ds.Select(lambda e: {J}.Where(lambda j: {K}[1].eta() > 0.0).Select(lambda j: j.eta()).Sum())",
         # ONE sequence bound to a lambda parameter, used under a guard and again without one in the same row / in the next step
         f"ds.Select(lambda e: {J}.Where(lambda j: j.pt() > 30.0)).Select(lambda g: (g.First().pt() if g.Count() > 0 else -1.0, g.First().eta()))",
         f"ds.Select(lambda e: {J}.Where(lambda j: j.pt() > 30.0)).Select(lambda g: {{'pt': g.First().pt() if g.Count() > 0 else -1.0, 'eta': g.First().eta()}})",
